@@ -373,6 +373,12 @@ func c27Run(t *testing.T, name string, useLdb bool, depth int) {
 			t.Fatalf("signing chain produced no signature chain for %s", s)
 		}
 	}
+	// configured number of routes per target: the default 2, the minimum 1, and 3 (thorough: 4)
+	// so that a target can hold three routes whose last hops repeat non-adjacently (b,c,b ...)
+	alphas := []int{1, 2, 3}
+	if mc.Thorough() {
+		alphas = []int{1, 2, 3, 4}
+	}
 	ops := c27Ops()
 	var opNames []string
 	for _, o := range ops {
@@ -403,12 +409,12 @@ func c27Run(t *testing.T, name string, useLdb bool, depth int) {
 	}()
 
 	mc.Run(t, mc.Config{ID: "C27", Name: name, MaxDev: -1, Params: map[string]interface{}{
-		"depth": depth, "alpha": []int{1, 2}, "nodes": "s(self) a b c d", "path_menu": c27Menu, "ops": opNames,
+		"depth": depth, "alpha": alphas, "nodes": "s(self) a b c d", "path_menu": c27Menu, "ops": opNames,
 		"observed_every_state": "Get(t) for all 5 nodes; GetNextHop(t, skips) for all 5 nodes x all 16 skip subsets of {a,b,c,d}",
 		"clock":                "tick = all in-memory and persisted timestamps shifted 2h into the past; gc-old = Gc(1h); gc-all = Gc(-1h)",
 		"store":                storeName, "max_ttl": 10}},
 		func(x *mc.X) {
-			alpha := 1 + x.Choose(2)
+			alpha := alphas[x.Choose(len(alphas))]
 			NeighborAlpha = int32(alpha)
 			atomic.StoreInt32(&MaxTTL, 10)
 			var store storage.StateStorer
